@@ -9,13 +9,19 @@ Histories are arbitrary finite lists of operations: parses with any flags, modul
 change (clean or dirty), clock advance, damage to an entry / to a table layout / to the whole file,
 rows written by another pymoca version.
 
-Finding **C01-F2** (see `known/C01.json`, `proposed_fixes/C01-1.diff`; fixed in /repo by commit 821b239): when the file is deleted,
-overwritten, or loses its `models` table *after* this process has put it into
-`parse.initialized_dbs`, and the module is not reloaded, the next `parse` raises a `DatabaseError`.
-`damaged_while_initialised_raises` is that counterexample on the model; the theorems about the code as it is
-carry the hypothesis `Undamaged` / `Synced` and are named `…_partial`.  The model has the flag `Cfg.recover`
-(set by the translator when `parse` has the shape of the proposed fix); with it `parse_transparent` and
-`history_transparent` hold without that hypothesis — the complete statement of the property.
+Two findings came out of these proofs (see `known/C01.json`):
+
+* **C01-F2** (fixed in /repo by 821b239, `proposed_fixes/C01-1.diff`): the file is deleted / overwritten /
+  loses its `models` table *after* this process put it into `parse.initialized_dbs`; without the recovery
+  handler the next `parse` raises.  Model flag `Cfg.recover`; counterexample `damaged_while_initialised_raises`.
+* **C01-F3** (open, `proposed_fixes/C01-2.diff`): the `models` table is replaced, after initialisation, by one on
+  which the lookup works but the insert does not (an additional NOT NULL column): the recovery handler only
+  guards the lookup, `parse` raises `IntegrityError` at the cache write.  Model flag `Cfg.writeTolerant`;
+  counterexample `write_damage_raises`.
+
+Theorems that need a region excluded are named `…_partial`; `parse_transparent` / `history_transparent` are the
+complete statement and hold for code with both flags.  `current_code_…` instantiate them with what the
+translator reads off the current sources.
 -/
 namespace PymocaVerif.C01
 open PymocaVerif.ParseCache
@@ -42,8 +48,8 @@ example : RowInv (fun _ x => if x = 1 then none else some (x + 10))
 
 /-- **A parse returns exactly what the uncached parser returns** — a tree equal to the fresh one, `none`
     exactly for a syntax error, never an exception — from every state that satisfies the invariant, whatever
-    damaged entries, layouts or file it contains; *partial*: states in which the file was damaged after this
-    process initialised it (`¬ Synced`, finding C01-F2) are excluded. -/
+    damaged entries, metadata, `noPk` layout or file it contains; *partial* (any code): states in which the
+    `models` table was made unusable after this process initialised it (`¬ Synced`) are excluded. -/
 theorem parse_transparent_partial (hc : CaughtAll cfg) (s : St) (h : RowInv pf s) (hs : Synced s)
     (x : TextId) (days : Int) (upd bypass : Bool) :
     (step cfg pf s (.parse x days upd bypass)).2 = some (.value (pf s.ver x)) := by
@@ -68,27 +74,52 @@ theorem none_iff_syntax_error_partial (hc : CaughtAll cfg) (s : St) (h : RowInv 
 example : (step { caught := ["Exception"] } (fun _ _ => (none : Option TreeId)) (St.initial 0) (.parse 3 30 false false)).2
     = some (.value none) := by decide
 
-/-- **The complete statement for one parse**, for code that re-validates a database it can no longer query
-    (`cfg.recover`, proposed fix C01-1): from *every* state satisfying the row invariant — no hypothesis on
-    what happened to the file or when — the parse returns the uncached result and raises nothing. -/
-theorem parse_transparent (hc : CaughtAll cfg) (hr : cfg.recover = true) (s : St) (h : RowInv pf s)
-    (x : TextId) (days : Int) (upd bypass : Bool) :
+/-- With the recovery handler (`cfg.recover`, the code since 821b239): also from states in which the file was
+    deleted / overwritten / lost its `models` table after initialisation; *partial*: a table on which the lookup
+    works and the insert does not (`extraCol`, finding C01-F3) installed after initialisation is excluded. -/
+theorem parse_transparent_recover_partial (hc : CaughtAll cfg) (hr : cfg.recover = true) (s : St) (h : RowInv pf s)
+    (hu : Usable s) (x : TextId) (days : Int) (upd bypass : Bool) :
     (step cfg pf s (.parse x days upd bypass)).2 = some (.value (pf s.ver x)) := by
   simp only [step]
   split
   · rfl
-  · simp only [(parseCached_spec_recover (x := x) (days := days) (upd := upd) hc hr h).1]
+  · simp only [(parseCached_spec_recover (x := x) (days := days) (upd := upd) hc hr h hu).1]
 
-example : CaughtAll { caught := ["Exception"], recover := true } ∧
-    RowInv (fun _ _ => some 7) ⟨.garbage, true, 10, 1, 0, false⟩ ∧ ¬ Synced ⟨.garbage, true, 10, 1, 0, false⟩ :=
-  ⟨caughtAll_of_all (by decide), by intro r hr; simp [rowsOf] at hr, by intro h; simpa [DbFile.queryable] using h rfl⟩
+example : Usable ⟨.garbage, true, 10, 1, 0, false⟩ ∧ ¬ Synced ⟨.garbage, true, 10, 1, 0, false⟩ :=
+  ⟨fun _ => Or.inl rfl, by intro h; obtain ⟨m, hm, _⟩ := h rfl; simp [DbFile.queryable] at hm⟩
+
+/-- **The complete statement for one parse** (code with the recovery handler *and* a cache write whose failure is
+    not propagated, `cfg.writeTolerant`): from *every* state satisfying the row invariant — no hypothesis on what
+    happened to the file or when — the parse returns the uncached result and raises nothing. -/
+theorem parse_transparent (hc : CaughtAll cfg) (hr : cfg.recover = true) (hw : cfg.writeTolerant = true) (s : St)
+    (h : RowInv pf s) (x : TextId) (days : Int) (upd bypass : Bool) :
+    (step cfg pf s (.parse x days upd bypass)).2 = some (.value (pf s.ver x)) := by
+  simp only [step]
+  split
+  · rfl
+  · simp only [parseCached_spec_full (x := x) (days := days) (upd := upd) hc hr hw h]
+
+example : RowInv (fun _ _ => some 7) ⟨.db (some ⟨.extraCol, []⟩) none, true, 10, 1, 0, false⟩ ∧
+    ¬ Usable ⟨.db (some ⟨.extraCol, []⟩) none, true, 10, 1, 0, false⟩ := by
+  refine ⟨by intro r hr; simp [rowsOf] at hr, ?_⟩
+  intro h
+  rcases h rfl with hq | ⟨m, hm, hl⟩
+  · simp [DbFile.queryable] at hq
+  · simp [DbFile.queryable] at hm; subst hm; exact hl rfl
 
 /-! ### Whole histories -/
 
-/-- no damaging operation happens while the process holds the database initialised -/
+/-- no damaging operation (file deleted / overwritten, `models` dropped / alien / extraCol) happens while the
+    process holds the database initialised -/
 def Undamaged (cfg : Cfg) (pf : Ver → TextId → Option TreeId) : St → List Op → Prop
   | _, [] => True
   | s, op :: ops => (damaging op = true → s.init = false) ∧ Undamaged cfg pf (step cfg pf s op).1 ops
+
+/-- no *write*-damage (`models` replaced by an `extraCol` table) happens while the process holds the database
+    initialised; any other damage may happen at any time -/
+def UndamagedWrite (cfg : Cfg) (pf : Ver → TextId → Option TreeId) : St → List Op → Prop
+  | _, [] => True
+  | s, op :: ops => (damagingWrite op = true → s.init = false) ∧ UndamagedWrite cfg pf (step cfg pf s op).1 ops
 
 /-- every parse of the run returns the uncached result -/
 def Transparent (cfg : Cfg) (pf : Ver → TextId → Option TreeId) : St → List Op → Prop
@@ -104,11 +135,10 @@ def TransparentWhenSynced (cfg : Cfg) (pf : Ver → TextId → Option TreeId) : 
     (∀ x d u b, op = .parse x d u b → Synced s → (step cfg pf s op).2 = some (.value (pf s.ver x))) ∧
     TransparentWhenSynced cfg pf (step cfg pf s op).1 ops
 
-/-- **Every parse of every finite history returns the uncached result**, from any state satisfying the invariant
-    (in particular from a folder without a database), for every sequence of parses with any flags, reloads,
-    version changes, clock advances, damaged entries, damaged metadata, `noPk` layouts and foreign rows —
-    *partial*: the damaging operations (file deleted/overwritten, `models` table dropped/replaced) may only happen
-    while the process does not hold the database initialised (finding C01-F2 is the complement). -/
+/-- **Every parse of every finite history returns the uncached result** (any code), from any state satisfying the
+    invariant, for every sequence of parses with any flags, reloads, version changes, clock advances, damaged
+    entries, damaged metadata, `noPk` layouts and foreign rows — *partial*: the damaging operations may only
+    happen while the process does not hold the database initialised. -/
 theorem history_transparent_partial (hc : CaughtAll cfg) (ops : List Op) :
     ∀ (s : St), RowInv pf s → Synced s → (∀ op ∈ ops, Admissible pf op) → Undamaged cfg pf s ops →
       Transparent cfg pf s ops := by
@@ -135,10 +165,27 @@ theorem history_transparent_when_synced (hc : CaughtAll cfg) (ops : List Op) :
     subst hop
     exact parse_transparent_partial hc s h hs x d u b
 
-/-- **The complete statement for histories** (`cfg.recover`): every parse of every finite history — any
-    interleaving of parses, reloads, version changes, clock advances and *any* damage to entries, layouts or the
-    whole file at *any* time — returns the uncached result. -/
-theorem history_transparent (hc : CaughtAll cfg) (hr : cfg.recover = true) (ops : List Op) :
+/-- **Histories with the recovery handler** (`cfg.recover`): the file may be deleted, overwritten, stripped of its
+    tables or given alien tables at *any* time; *partial*: only the `extraCol` replacement of `models` while
+    initialised (finding C01-F3) is excluded. -/
+theorem history_transparent_recover_partial (hc : CaughtAll cfg) (hr : cfg.recover = true) (ops : List Op) :
+    ∀ (s : St), RowInv pf s → Usable s → (∀ op ∈ ops, Admissible pf op) → UndamagedWrite cfg pf s ops →
+      Transparent cfg pf s ops := by
+  induction ops with
+  | nil => intros; trivial
+  | cons op ops ih =>
+    intro s h hu hadm hund
+    refine ⟨?_, ih _ (inv_step s op (hadm op (by simp)) h) (usable_step hc hr s op h hu hund.1)
+      (fun o ho => hadm o (by simp [ho])) hund.2⟩
+    intro x d u b hop
+    subst hop
+    exact parse_transparent_recover_partial hc hr s h hu x d u b
+
+/-- **The complete statement for histories** (`cfg.recover` and `cfg.writeTolerant`): every parse of every finite
+    history — any interleaving of parses, reloads, version changes, clock advances and *any* damage to entries,
+    layouts or the whole file at *any* time — returns the uncached result. -/
+theorem history_transparent (hc : CaughtAll cfg) (hr : cfg.recover = true) (hw : cfg.writeTolerant = true)
+    (ops : List Op) :
     ∀ (s : St), RowInv pf s → (∀ op ∈ ops, Admissible pf op) → Transparent cfg pf s ops := by
   induction ops with
   | nil => intros; trivial
@@ -147,14 +194,16 @@ theorem history_transparent (hc : CaughtAll cfg) (hr : cfg.recover = true) (ops 
     refine ⟨?_, ih _ (inv_step s op (hadm op (by simp)) h) (fun o ho => hadm o (by simp [ho]))⟩
     intro x d u b hop
     subst hop
-    exact parse_transparent hc hr s h x d u b
+    exact parse_transparent hc hr hw s h x d u b
 
-example : (run { caught := ["Exception"], recover := true } (fun _ _ => some 5) (St.initial 0)
+example : (run { caught := ["Exception"], recover := true, writeTolerant := true } (fun _ x => some (x + 5)) (St.initial 0)
       [.parse 0 30 false false, .corruptFile .delete, .parse 0 30 false false, .corruptLayout .models .alien,
-       .parse 0 30 true false, .corruptFile .text, .parse 0 30 false false]).filterMap (·.2) =
-      [.value (some 5), .value (some 5), .value (some 5), .value (some 5)] := by decide +kernel
+       .parse 0 30 true false, .corruptFile .text, .parse 0 30 false false, .corruptLayout .models .extraCol,
+       .parse 1 30 false false, .parse 0 30 false false, .parse 1 30 false false]).filterMap (·.2) =
+      [.value (some 5), .value (some 5), .value (some 5), .value (some 5), .value (some 6), .value (some 5),
+       .value (some 6)] := by decide +kernel
 
-/-- a 12-operation history with a hit, a prune, an entry that does not unpickle, an entry that unpickles to
+/-- a 17-operation history with a hit, a prune, an entry that does not unpickle, an entry that unpickles to
     `None`, a wrong layout, a corrupt file (before a reload), a foreign row and a version change -/
 def demoOps : List Op :=
   [.parse 0 30 false false, .parse 0 30 true false, .corruptEntry 0 0 (.bad .eof), .parse 0 30 false false,
@@ -200,11 +249,12 @@ theorem planted_none_not_served :
   unfold NoNone
   decide +kernel
 
-/-! ### Obligation over the current sources; the open finding -/
+/-! ### Obligations over the current sources; the findings on the model -/
 
 /-- what the translator read off the current `parse` -/
 def currentCfg : Cfg :=
-  { caught := Generated.SqlProgram.caughtUnpickle, recover := Generated.SqlProgram.recoversAfterDamage }
+  { caught := Generated.SqlProgram.caughtUnpickle, recover := Generated.SqlProgram.recoversAfterDamage,
+    writeTolerant := Generated.SqlProgram.toleratesWriteFailure }
 
 /-- The `except` clause around `pickle.loads` in the current `parse` (extracted by the translator) catches
     every exception class a damaged blob was seen to raise. -/
@@ -214,27 +264,45 @@ theorem caught_classes_cover : CaughtAll currentCfg :=
 /-- The current `parse` has the handler that re-validates a database it can no longer query (fix 821b239). -/
 theorem current_parse_recovers : currentCfg.recover = true := by decide
 
-/-- **C01 for the code as it is now**: with the facts extracted from the current sources, every parse of every
-    finite history (any damage at any time) returns the uncached result — `none` iff syntax error, no exception. -/
-theorem current_code_transparent (ops : List Op) (s : St) (h : RowInv pf s) (hadm : ∀ op ∈ ops, Admissible pf op) :
+/-- **C01 for the code as it is now** — *partial* while C01-F3 is open: every parse of every finite history
+    returns the uncached result, for any damage at any time except the `extraCol` replacement of `models` while
+    the process holds the database initialised. -/
+theorem current_code_transparent_partial (ops : List Op) (s : St) (h : RowInv pf s) (hu : Usable s)
+    (hadm : ∀ op ∈ ops, Admissible pf op) (hund : UndamagedWrite currentCfg pf s ops) :
     Transparent currentCfg pf s ops :=
-  history_transparent caught_classes_cover current_parse_recovers ops s h hadm
+  history_transparent_recover_partial caught_classes_cover current_parse_recovers ops s h hu hadm hund
 
-example : RowInv demoPf (St.initial 1000) ∧ ∀ op ∈ demoOps, Admissible demoPf op :=
-  ⟨by intro r hr; simp [St.initial, rowsOf] at hr, by decide⟩
+example : RowInv demoPf (St.initial 1000) ∧ Usable (St.initial 1000) ∧ (∀ op ∈ demoOps, Admissible demoPf op) ∧
+    UndamagedWrite currentCfg demoPf (St.initial 1000) demoOps :=
+  ⟨(by intro r hr; simp [St.initial, rowsOf] at hr), (by intro h; cases h), (by decide),
+   (by simp [demoOps, UndamagedWrite, damagingWrite])⟩
 
-/-- With only `pickle.UnpicklingError` caught (the code before the fix) an empty blob escapes as `EOFError`. -/
+/-- … and complete as soon as the translator finds the tolerant cache write (proposed fix C01-2) in the sources. -/
+theorem current_code_transparent (hw : currentCfg.writeTolerant = true) (ops : List Op) (s : St) (h : RowInv pf s)
+    (hadm : ∀ op ∈ ops, Admissible pf op) : Transparent currentCfg pf s ops :=
+  history_transparent caught_classes_cover current_parse_recovers hw ops s h hadm
+
+/-- With only `pickle.UnpicklingError` caught (the code before 9e3ac59) an empty blob escapes as `EOFError`. -/
 theorem narrow_except_raises :
     (run { caught := ["pickle.UnpicklingError"] } (fun _ _ => some 5) (St.initial 0)
       [.parse 0 30 false false, .corruptEntry 0 0 (.bad .eof), .parse 0 30 false false]).map (·.2) =
       [some (.value (some 5)), none, some (.raised (.unpickle .eof))] := by decide +kernel
 
-/-- **Finding C01-F2 on the model**: parse, then the file is deleted (or overwritten, or the table dropped)
-    while the process keeps it in `initialized_dbs`, then parse again: `DatabaseError`.  After a reload the
-    same parse succeeds. -/
+/-- **Finding C01-F2 on the model** (code without the recovery handler): parse, then the file is deleted while
+    the process keeps it in `initialized_dbs`, then parse again: `DatabaseError`; after a reload it succeeds. -/
 theorem damaged_while_initialised_raises :
     (run { caught := ["Exception"] } (fun _ _ => some 5) (St.initial 0)
       [.parse 0 30 false false, .corruptFile .delete, .parse 0 30 false false, .reload, .parse 0 30 false false]).map (·.2) =
       [some (.value (some 5)), none, some (.raised .db), none, some (.value (some 5))] := by decide +kernel
+
+/-- **Finding C01-F3 on the model** (recovery handler, cache write not tolerated — the code as of 821b239): the
+    `models` table is replaced by one with an additional NOT NULL column while the process holds the database
+    initialised; a hit is still served, a miss raises at the insert; after a reload everything works. -/
+theorem write_damage_raises :
+    (run { caught := ["Exception"], recover := true } (fun _ x => some (x + 5)) (St.initial 0)
+      [.parse 0 30 false false, .corruptLayout .models .extraCol, .parse 0 30 false false, .parse 1 30 false false,
+       .reload, .parse 1 30 false false]).map (·.2) =
+      [some (.value (some 5)), none, some (.value (some 5)), some (.raised .db), none, some (.value (some 6))] := by
+  decide +kernel
 
 end PymocaVerif.C01
